@@ -108,6 +108,12 @@ def run_driver(case, obs):
         bp, npit = net_["_active_pit"]["branch"], net_["_active_pit"]["node"]
         slack = np.where(npit[:, NODE_TYPE] == P)[0]
         old = [bp[:, MDOTINIT].copy(), npit[:, PINIT].copy(), npit[slack, MDOTSLACKINIT].copy()]
+        if any(math.isnan(x) for x in e):
+            # a NaN step (singular linear solve) is reported without poisoning the state for the following symbols
+            state["old"].append(old)
+            state["new"].append([o.copy() for o in old])
+            state["k"] = k + 1
+            return [old[0] + e[0], old[0], old[1] + e[1], old[1], old[2] + e[2], old[2]], np.array([r]), [None, None, slack]
         bp[:, MDOTINIT] = old[0] + e[0]
         npit[:, PINIT] = old[1] + e[1]
         npit[slack, MDOTSLACKINIT] = old[2] + e[2]
